@@ -1,7 +1,7 @@
 (* C05 - the result does not depend on how input is chunked.
    Property theorems only; proofs are in Proofs/LoopP.v. *)
 From Model Require Import Base Uni Utf8 Notation Dispatch.
-From Proofs Require Import DispatchP LoopP.
+From Proofs Require Import DispatchP LoopP LoopViP.
 
 Section C05.
   (* any application state and any commands, as long as a command acts on that state
@@ -30,11 +30,11 @@ Section C05.
     result cs a0 = aobs A (afeed A exec t (S (length (concat cs))) no_bind [] a0 (concat cs)).
   Proof.
     intros cs a0 Hcs. unfold result, fuel_for.
-    destruct (loop_is_machine A exec t t_nonempty no_macros (weight cs)) as [_ H].
-    change (init_state A false a0) with (mk A no_bind no_bind [] [] false a0).
+    destruct (LoopP.loop_is_machine A exec t t_nonempty no_macros (weight cs)) as [_ H].
+    change (init_state A false a0) with (LoopP.mk A no_bind no_bind [] [] false a0).
     rewrite (H (S (weight cs)) (S (length (concat cs))) no_bind no_bind [] [] false a0 cs); auto; try (cbn; lia).
     - rewrite achunks_concat by lia. reflexivity.
-    - apply stable_nil.
+    - apply LoopP.stable_nil.
   Qed.
 
   (* hence: two ways of cutting the same bytes into reads give the same result -
@@ -62,3 +62,44 @@ Example C05_example :
       | None => []
       end) = [[112; 50]; [112; 49]; [112; 51]].
 Proof. split; vm_compute; reflexivity. Qed.
+
+(* The same in a Vi main keymap, for input that contains no ESC byte (the property itself
+   leaves the timing of a lone ESC in Vi modes aside): the Vi loop is the same abstract
+   machine (Proofs/LoopViP.v), so the result is a function of the bytes there too. *)
+Section C05vi.
+  Variable A : Type.
+  Variable exec : list Z -> list Z -> A -> option (A * bool).
+  Variable t : table.
+  Hypothesis t_nonempty : t <> [].
+  Hypothesis no_macros : forall e, In e t -> snd (snd e) = false.
+
+  Definition result_vi (cs : list (list Z)) (a0 : A) : option (bool * A * list Z) :=
+    obs A (loop A exec (S (weight cs)) false t (init_state A true a0) (map Chunk cs)).
+
+  Theorem C05_vi_result_is_a_function_of_the_bytes : forall cs a0,
+    Forall (fun c => c <> []) cs -> ~ In 27 (concat cs) ->
+    result_vi cs a0 = aobs A (afeed A exec t (S (length (concat cs))) no_bind [] a0 (concat cs)).
+  Proof.
+    intros cs a0 Hcs Hesc. unfold result_vi.
+    assert (NE : Forall (fun c => ~ In 27 c) cs).
+    { clear - Hesc. induction cs as [|c cs IH]; constructor.
+      - intros X. apply Hesc. cbn [concat]. apply in_or_app. left. exact X.
+      - apply IH. intros X. apply Hesc. cbn [concat]. apply in_or_app. right. exact X. }
+    destruct (LoopViP.loop_is_machine A exec t true t_nonempty no_macros (weight cs)) as [_ H].
+    change (init_state A true a0) with (LoopViP.mk A true no_bind no_bind [] [] false a0).
+    rewrite (H (S (weight cs)) (S (length (concat cs))) no_bind no_bind [] [] false a0 cs); auto; try (cbn; lia).
+    - rewrite achunks_concat by lia. reflexivity.
+    - apply LoopViP.stable_nil.
+    - intros X; exact X.
+  Qed.
+
+  Theorem C05_vi_chunking_does_not_matter : forall cs1 cs2 a0,
+    Forall (fun c => c <> []) cs1 -> Forall (fun c => c <> []) cs2 -> ~ In 27 (concat cs1) ->
+    concat cs1 = concat cs2 -> result_vi cs1 a0 = result_vi cs2 a0.
+  Proof.
+    intros cs1 cs2 a0 H1 H2 He E.
+    rewrite (C05_vi_result_is_a_function_of_the_bytes cs1 a0 H1 He).
+    rewrite (C05_vi_result_is_a_function_of_the_bytes cs2 a0 H2 ltac:(rewrite <- E; exact He)).
+    rewrite E. reflexivity.
+  Qed.
+End C05vi.
